@@ -37,6 +37,8 @@ ASSUMPTIONS = ["documented renaming: score, subtomo_id->subtomo_num, tomo_id->to
                "STAR precision: |file - value| <= 0.5e-6 + 1e-12*|value|; generated field magnitudes < 1e6, subtomogram numbers are positive integers < 2**31 (duplicates allowed)",
                "subtomogram numbers are integral (parity is only defined for integers); field values finite (no NaN)",
                "particle order = positional row order of the table, whatever its row index",
+               "particle tables typed float32/float16 are outside the quantifier (lead's ruling, round 6): not generated, and calls "
+               "with such tables are counted out-of-domain by the call monitors; integer-typed columns are in",
                "after update_coord the comparison is on complete positions (x+shift), integral orig_*, |shift| <= 0.5; "
                "which integer a .5 tie goes to is not judged here (C05)"]
 
@@ -45,7 +47,6 @@ CLASSES = ["n1", "unsorted_ids", "sparse_ids", "single_parity", "duplicate_ids",
            "half_integer_positions", "object_copy", "n300", "boundary_sizes", "mutation_history",
            "constant_columns", "layouts_dtypes", "chained_objects"]
 CANON = gens.COLS
-INCLUDE_FLOAT32 = False
 ROUTES = ["StopgapMotl(df).write_out", "StopgapMotl(StopgapMotl).write_out", "Motl.load(df,stopgap).write_out",
           "emmotl2stopgap(df,path)", "emmotl2stopgap(EmMotl,path)", "Motl(df).write_out(path,stopgap)"]
 
@@ -73,7 +74,7 @@ def _in_domain(F):
 
 def _exp_applicable(A):
     df = A["motl_df"]
-    return isinstance(df, pd.DataFrame) and _in_domain(O.em_fields(df))
+    return isinstance(df, pd.DataFrame) and not O.narrow_float(df) and _in_domain(O.em_fields(df))
 
 
 def _exp_snapshot(A):
@@ -114,7 +115,7 @@ def _imp_applicable(A):
     cur = getattr(me, "df", None)
     if not isinstance(cur, pd.DataFrame) or len(cur) != 0:
         return False
-    return _in_domain(O.sg_fields(sg))
+    return not O.narrow_float(sg, sg=True) and _in_domain(O.sg_fields(sg))
 
 
 def _imp_snapshot(A):
@@ -136,7 +137,7 @@ def _imp_post(ctx, A, E, result):
 def _wo_applicable(A):
     p = A["output_path"]
     df = getattr(A["self"], "df", None)
-    return isinstance(p, str) and p.endswith(".star") and isinstance(df, pd.DataFrame) and _in_domain(O.em_fields(df))
+    return isinstance(p, str) and p.endswith(".star") and isinstance(df, pd.DataFrame) and not O.narrow_float(df) and _in_domain(O.em_fields(df))
 
 
 def _wo_snapshot(A):
@@ -370,16 +371,10 @@ def gen(ctx, i, cls):
     layout = None
     if cls == "layouts_dtypes":
         # the SHAPE of the table: backing-array layouts and narrow dtypes; expected values = the values the table holds.
-        # float32-typed lists are NOT generated: on the unchanged tree update_coordinates raises for them (Decimal(np.float32))
-        # and Starfile.write rounds/prints them in float32 (error ~1 float32 ulp > STAR tolerance).  Both reported to the lead
-        # (round 6) and kept out until ruled; set INCLUDE_FLOAT32 = True to judge them.
+        # float32-typed tables are outside the quantifier (lead's ruling, round 6; DESIGN.md records the two observations:
+        # update_coordinates raises on Decimal(np.float32), Starfile.write rounds/prints float32 columns at float32 accuracy).
         opts = ["fortran", "transposed_view", "negative_stride", "noncontig_slice", "readonly", "int_positions", "int_angles", "int_all"]
-        if INCLUDE_FLOAT32:
-            opts += ["float32", "float32"]
         layout = str(rng.choice(opts))
-        if layout == "float32":
-            df["subtomo_id"] = _ids(rng, n, "sparse").astype(float)
-            df = df.astype(np.float32).astype(np.float64)
         if layout in ("int_positions", "int_all"):
             for c in O.POS:
                 df[c] = np.round(df[c])
@@ -483,8 +478,6 @@ def build_input(case, rng):
             a = arr.copy()
             a.setflags(write=False)
         t = pd.DataFrame(a, columns=case["order"], copy=False)
-    elif lay == "float32":
-        t = t.astype(np.float32)
     elif lay in ("int_positions", "int_angles", "int_all"):
         if lay != "int_angles":
             for c in O.POS:
